@@ -218,3 +218,97 @@ func init() {
 		},
 	})
 }
+
+// ---- C18/values: every kind of value passes through a pipe -------------------------
+//
+// The stream model of C18/pipelines carries strings only. Here the payload is a
+// sequence of 0..60 values of mixed kinds - strings, $nil, booleans, numbers,
+// empty and non-empty lists and maps - written by a harness command (or by put)
+// and read to the end by a stage that must see every one of them exactly once,
+// in order: $nil in particular is a value, not the end of the stream.
+
+type c18ValuesCase struct {
+	Kinds  []int `json:"kinds"`  // per value: index into c18ValueSrcs
+	Reader int   `json:"reader"` // index into c18ValueReaders
+	ByPut  bool  `json:"by_put"` // written by `put ...` instead of the harness command
+}
+
+var c18ValueSrcs = []string{"a", "$nil", "$nil", "$true", "$false", "(num 0)", "(num 1)", "''", "[]", "[&]", "[a]", "[&k=v]", "b"}
+
+// each reader reproduces its input as one list [v0 v1 ...] (count: the number)
+var c18ValueReaders = []string{
+	"put [(all)]",
+	"put [(each {|x| put $x })]",
+	"count",
+	"put [(take 1000)]",
+	"each {|x| put $x } | put [(all)]",
+	"put [(peach &num-workers=1 {|x| put $x })]",
+	"put [(drop 0)]",
+}
+
+func c18ValuesCheck(c c18ValuesCase) error {
+	ev := elv.New()
+	var srcs []string
+	for _, k := range c.Kinds {
+		srcs = append(srcs, c18ValueSrcs[((k%len(c18ValueSrcs))+len(c18ValueSrcs))%len(c18ValueSrcs)])
+	}
+	list := "[" + strings.Join(srcs, " ") + "]"
+	reader := c18ValueReaders[((c.Reader%len(c18ValueReaders))+len(c18ValueReaders))%len(c18ValueReaders)]
+	writer := "all " + list
+	if c.ByPut && len(srcs) > 0 {
+		writer = "put " + strings.Join(srcs, " ")
+	}
+	code := "var want = " + list + "\n" + writer + " | " + reader
+	res := elv.Run(ev, code)
+	if res.Err != nil {
+		return fmt.Errorf("`%s` raised %v", code, res.Err)
+	}
+	if len(res.Values) != 1 {
+		return fmt.Errorf("`%s` output %d values: %s", code, len(res.Values), elv.Reprs(res.Values))
+	}
+	if reader == "count" {
+		if n, ok := res.Values[0].(int); !ok || n != len(srcs) {
+			return fmt.Errorf("`%s`: count is %s, %d values were written", code, elv.Reprs(res.Values), len(srcs))
+		}
+		return nil
+	}
+	want := elv.Run(ev, "put "+list)
+	if want.Err != nil || len(want.Values) != 1 {
+		return fmt.Errorf("harness: cannot evaluate %s: %v", list, want.Err)
+	}
+	if !vals.Equal(res.Values[0], want.Values[0]) {
+		return fmt.Errorf("`%s`: the reader saw %s, the writer wrote %s", code, vals.ReprPlain(res.Values[0]), vals.ReprPlain(want.Values[0]))
+	}
+	return nil
+}
+
+func init() {
+	vs.Register(vs.Prop[c18ValuesCase]{
+		Name: "C18/values",
+		Rule: "0..60 values of mixed kinds (strings, $nil, booleans, numbers, empty string, empty and non-empty lists and maps) written into a pipe by `all <list>` or `put ...` and read to the end by all / each / count / take / drop / peach with one worker / a two-stage reader; the reader must see exactly the written sequence; non-trivial = at least one $nil or empty container among the values",
+		Gen: func(t *rapid.T) c18ValuesCase {
+			n := rapid.SampledFrom([]int{0, 1, 2, 3, 5, 8, 31, 32, 33, 34, 40, 60}).Draw(t, "n")
+			c := c18ValuesCase{Reader: rapid.IntRange(0, len(c18ValueReaders)-1).Draw(t, "reader"), ByPut: rapid.Bool().Draw(t, "byput")}
+			for i := 0; i < n; i++ {
+				c.Kinds = append(c.Kinds, rapid.IntRange(0, len(c18ValueSrcs)-1).Draw(t, "kind"))
+			}
+			return c
+		},
+		Check: c18ValuesCheck,
+		Class: func(c c18ValuesCase) (string, bool) {
+			nt := false
+			for _, k := range c.Kinds {
+				switch c18ValueSrcs[k%len(c18ValueSrcs)] {
+				case "$nil", "[]", "[&]", "''":
+					nt = true
+				}
+			}
+			if nt {
+				return "with-nil-or-empty", true
+			}
+			return "plain", false
+		},
+		Quick: 600, Thorough: 10000,
+		Timeout: 60 * time.Second,
+	})
+}
